@@ -6,6 +6,8 @@
 //	pfx  <fmt> <file> <ngood> <tokens...>  file = render(tokens, final newline) ++ malformed tail
 //	trunc <fmt> <file> <ngood> <tokens...> file = render(tokens, final newline) ++ one more well-formed entry cut short
 //	hostile <inner case...>                the inner case in a subprocess under `ulimit -v` (absurd sizes / counts)
+//	badhdr <fmt> <file> <ngood> <tokens...> file = render(tokens) ++ a header line with a blank key ++ a valid request
+//	cfghdr <header text>                   uri provider on "/a\n" with this entry in the config `headers` list
 //	shoot <text>                           config.ParseShootName
 //	conv <http|grpc> <shoot>...            scenario NewProvider on a generated YAML, request list of the scenario
 //	weights <w>...                         scenario NewProvider with these scenario weights
@@ -406,7 +408,9 @@ func ints(fs []string) []int64 {
 func runCase(c string) string {
 	f := strings.Split(c, " ")
 	switch f[0] {
-	case "ammo", "pfx", "trunc":
+	case "cfghdr":
+		return a07ammo.RunProviderCfg("uri", []byte("/a\n"), 2, 0, 0, false, []string{string(vh.UnHex(f[1]))})
+	case "ammo", "pfx", "trunc", "badhdr":
 		return a07ammo.RunProvider(decoderName(f[1]), vh.UnHex(f[2]), acquireN, 0, 0)
 	case "hostile":
 		return hostileCase(strings.Join(f[1:], " "))
